@@ -2,10 +2,10 @@ package props
 
 import (
 	"fmt"
-	"os"
 	"go/ast"
 	"go/token"
 	"go/types"
+	"os"
 	"strconv"
 	"strings"
 
@@ -40,10 +40,16 @@ func runC01(c *kit.Ctx) {
 	r4 := c.Rule("R4", "key normalisation before compare and write", 4)
 	r5 := c.Rule("R5", "in-batch de-duplication", 8)
 	r6 := c.Rule("R6", "SQL / struct agreement", 15)
+	r7 := c.Rule("R7", "no string-concatenated point identity as a lookup key", 1)
 
 	if len(m.writers) != 2 {
 		c.Fatalf("expected 2 point writers (node_points, edge_points), found %d", len(m.writers))
 	}
+	// rules that do not depend on the shape of the merge loop run first, so that a
+	// restructured loop (anchor error below) does not hide what they see
+	c01IdentityKeys(c, r7)
+	c01Collapse(c, m, r5)
+	c01SQL(c, m, r6)
 	normConsts := map[string]string{}
 	for _, w := range m.writers {
 		c.Analysed(w.F)
@@ -139,8 +145,153 @@ func runC01(c *kit.Ctx) {
 			o.OK("constant %q (migration %q)", a, mig)
 		}
 	}
-	c01Collapse(c, m, r5)
-	c01SQL(c, m, r6)
+}
+
+// c01IdentityKeys: type and key are arbitrary strings, so any concatenation of
+// the two (with or without a separator) maps distinct identities to one string:
+// ("a:b","c") and ("a","b:c") under "type:key".  Such a string must never be
+// the key of a map (or the operand of an equality) that decides which stored
+// point an incoming point is merged with.  Covers packages store and data.
+func c01IdentityKeys(c *kit.Ctx, r7 *kit.Rule) {
+	type hit struct {
+		f *kit.Func
+		n ast.Node
+	}
+	var hits []hit
+	examined := 0
+	for _, rel := range []string{"store", "data"} {
+		funcs := c.P.Funcs(rel)
+		// does e concatenate the Type and the Key of a data.Point?
+		isIDConcat := func(f *kit.Func, e ast.Expr) bool {
+			info := f.Info()
+			hasT, hasK := false, false
+			var walk func(x ast.Expr) bool // returns false if not a pure concat/format
+			walk = func(x ast.Expr) bool {
+				x = ast.Unparen(x)
+				switch y := x.(type) {
+				case *ast.BinaryExpr:
+					if y.Op != token.ADD {
+						return false
+					}
+					return walk(y.X) && walk(y.Y)
+				case *ast.SelectorExpr:
+					if kit.IsNamedType(info.TypeOf(y.X), dataPkg, "Point") {
+						switch y.Sel.Name {
+						case "Type":
+							hasT = true
+						case "Key":
+							hasK = true
+						}
+					}
+					return true
+				case *ast.CallExpr:
+					if kit.CallIs(info, y, "fmt.Sprintf", "fmt.Sprint", "strings.Join") {
+						for _, a := range y.Args {
+							walk(a)
+						}
+						return true
+					}
+					return true
+				}
+				return true
+			}
+			if _, ok := ast.Unparen(e).(*ast.BinaryExpr); !ok {
+				if call, ok := ast.Unparen(e).(*ast.CallExpr); !ok || !kit.CallIs(info, call, "fmt.Sprintf", "fmt.Sprint", "strings.Join") {
+					return false
+				}
+			}
+			walk(e)
+			return hasT && hasK
+		}
+		// functions that return such a string
+		idFuncs := map[*kit.Func]bool{}
+		for _, f := range funcs {
+			if f.Body == nil {
+				continue
+			}
+			ast.Inspect(f.Body, func(n ast.Node) bool {
+				if _, ok := n.(*ast.FuncLit); ok && n != f.Node() {
+					return false
+				}
+				if ret, ok := n.(*ast.ReturnStmt); ok {
+					for _, r := range ret.Results {
+						if isIDConcat(f, r) {
+							idFuncs[f] = true
+						}
+					}
+				}
+				return true
+			})
+		}
+		isIDString := func(f *kit.Func, e ast.Expr) bool {
+			if isIDConcat(f, e) {
+				return true
+			}
+			if call, ok := ast.Unparen(e).(*ast.CallExpr); ok {
+				if cf := f.CalleeFunc(call); cf != nil && idFuncs[cf] {
+					return true
+				}
+			}
+			// single-assignment local
+			if o := kit.ObjOf(f.Info(), e); o != nil {
+				found := false
+				n := 0
+				ast.Inspect(f.Body, func(x ast.Node) bool {
+					if as, ok := x.(*ast.AssignStmt); ok {
+						for i, l := range as.Lhs {
+							if kit.ObjOf(f.Info(), l) == o && i < len(as.Rhs) {
+								n++
+								if isIDConcat(f, as.Rhs[i]) {
+									found = true
+								} else if call, ok := ast.Unparen(as.Rhs[i]).(*ast.CallExpr); ok {
+									if cf := f.CalleeFunc(call); cf != nil && idFuncs[cf] {
+										found = true
+									}
+								}
+							}
+						}
+					}
+					return true
+				})
+				return found && n == 1
+			}
+			return false
+		}
+		for _, f := range funcs {
+			if f.Body == nil {
+				continue
+			}
+			info := f.Info()
+			ast.Inspect(f.Body, func(n ast.Node) bool {
+				if _, ok := n.(*ast.FuncLit); ok && n != f.Node() {
+					return false
+				}
+				switch x := n.(type) {
+				case *ast.IndexExpr:
+					if _, ok := info.TypeOf(x.X).Underlying().(*types.Map); ok {
+						examined++
+						if isIDString(f, x.Index) {
+							hits = append(hits, hit{f, x})
+						}
+					}
+				case *ast.BinaryExpr:
+					if x.Op == token.EQL || x.Op == token.NEQ {
+						if isIDString(f, x.X) || isIDString(f, x.Y) {
+							hits = append(hits, hit{f, x})
+						}
+					}
+				}
+				return true
+			})
+		}
+	}
+	o := r7.Ob(nil, nil, "identity lookups", "no map in packages store/data is keyed by (and no equality compares) a string concatenated from a point's Type and Key")
+	if len(hits) > 0 {
+		h := hits[0]
+		o.Violation("`%s` at %s in %s identifies a point by a string built from Type and Key: distinct identities such as (\"a:b\",\"c\") and (\"a\",\"b:c\") collide, so one identity overwrites or shadows the other", h.f.Str(h.n), h.f.At(h.n), h.f.Name)
+	} else {
+		o.OK("%d map lookups examined in store and data", examined)
+	}
 }
 
 func describeFx(p string) string {
@@ -798,6 +949,8 @@ func c01SQL(c *kit.Ctx, m *storeModel, r6 *kit.Rule) {
 			switch {
 			case !ok:
 				bad = "a re-delivered point does not update column " + col + " (missing from DO UPDATE SET)"
+			case strings.EqualFold(got, "excluded."+col):
+				// the value proposed for insertion: same binding
 			case got != want:
 				bad = "column " + col + " is updated from " + got + ", expected " + want
 			}
